@@ -17,6 +17,25 @@ CLAIMS: dict[str, dict] = {
                 "Set-level statement is checked by the spec predicate on every case; its Lean proof covers single policies (sets: see DESIGN).",
         "technique": "Lean 4 proof over a hand-written model + differential correspondence check",
     },
+    "C16": {
+        "text": "Lean theorems over a small file-system model: for every program of the stated shape (temp file in the target's directory, "
+                "writes only to the temp handle, closed before the single replace(temp→target), unlink(temp) in finally) and every fault – "
+                "a kill after any prefix (= every instant) or any step raising, partial writes/flushes included – the target is the complete "
+                "old or the complete new file, no temp file survives an exception, no other file is touched (c16_all_or_nothing, "
+                "c16_failure_leaves_no_temp, c16_success_writes_new); for every history of writes/touches/deletes/etag()/load() from every "
+                "cache state: load() is the parse of the disk, unchanged file ⇒ equal tags, and under the property's own proviso (no content "
+                "change that keeps size and mtime between consecutive tag observations) every tag is the hash of the content on disk (+mtime "
+                "when configured), hence different for different content and, in mtime mode, for a touch (signature cache as invariant, sha "
+                "injective as hypothesis). Tie on every run: the step list of the real atomic_write is traced (wrapping os/tempfile inside "
+                "file_store) and a decide-obligation shows it has the shape; faults are injected at every traced step of the real function "
+                "(exceptions incl. mid-write, os._exit in a fork, SIGKILL in a child interpreter), a reader runs between every two steps and "
+                "in a concurrent thread; all histories up to a bound + random ones run on real files with exact mtimes, JSON and YAML.",
+        "design_ref": "DESIGN.md §5 C16",
+        "note": "cannot exhibit: power-loss durability (no fsync — outside the statement), kernel rename atomicity (trusted). Also trusted: "
+                "mkstemp name freshness, sha256 injectivity (named hypothesis), the hand-written model (validated differentially, not verified), "
+                "the tracer in harness/awtrace.py; etag()'s stat-then-hash race under a concurrent writer is outside the quantifier (sequential histories).",
+        "technique": "Lean 4 proof over a hand-written model + traced program with shape obligation + fault injection / history correspondence check",
+    },
 }
 
 ALL = [f"C{i:02d}" for i in range(1, 21)]
